@@ -86,6 +86,13 @@ def rules(ctx):
         for c in cas:
             ok, p, n = flow.only_via(fn, c, sz, False)
             ctx.check(ok and n > 0, rid, inst + "#cas|non-empty", "steal attempted only when size > 0", "a steal is attempted on an empty deque", fn.where(c), fn=fn)
+        # a thief fails only because the deque was empty or because it lost the race for _top - never because of the item's value
+        want = lambda f, nid: True if sz(f, nid) else (False if nid in cas else None)
+        for r in [r for r in flow.find(fn, {"k": "return"}) if fn.kids(r) and fn.nodes[fn.kids(r)[0]].get("v") == 0]:
+            ok, p, n = flow.only_via_want(fn, r, want, relicense=False)
+            ctx.check(ok and n > 0, rid, inst + "#false|empty-or-lost-cas", "try_steal fails only on an empty deque or a lost CAS on _top",
+                      "try_steal can report failure although the deque is not empty and no CAS on _top was lost (e.g. depending on the value of the item): the oldest "
+                      "item is then never handed out to a thief and blocks every item behind it", fn.where(r), fn=fn, path=flow.describe_path(fn, p))
 
     # grow(bottom, top): the live range is handed over in the order the callee uses it
     for fn in flow._shapes(ctx, D + "try_push"):
